@@ -245,7 +245,7 @@ fn case(rng: &mut Rng, rep: &mut Report, case_no: u64, reps: usize) {
 
 pub fn run(args: &Args) -> i32 {
     let mut rep = Report::new(args);
-    let n = args.count(96, 1200);
+    let n = args.count(384, 2400);
     let reps = if args.thorough { 100 } else { 30 };
     let range: Vec<u64> = match args.case {
         Some(c) => vec![c],
